@@ -11,15 +11,29 @@
 (*  [ev |-> "truth", term, vals, test |-> <<BOOLEAN>>, pyf |-> <<BOOLEAN>>,*)
 (*   out]     term.test(v) and term.to_pyfunc()(v) for every v of vals     *)
 (*                                                                         *)
-(* The calls are independent (pure functions): a rejected event is         *)
-(* recorded and the next event of the same trace is examined.              *)
+(*  [ev |-> "new", term, out]           a predicate OBJECT is built from   *)
+(*      fresh leaves as `term`; it is object number Len(store) + 1         *)
+(*  [ev |-> "combine", op, a, b, out]   a new object ~a / a & b / a | b is *)
+(*      built FROM THE OBJECTS a and b of the store                        *)
+(*  [ev |-> "otruth", obj, vals, test, pyf, out]   the truth table of the  *)
+(*      object `obj` of the store as it is now                             *)
+(*  [ev |-> "oselect", obj, pos |-> "name" | "attr", via, recv, deep,      *)
+(*   roots, out, res]    the object used as the name (attribute) predicate *)
+(*      of a one-level query                                               *)
+(*  [ev |-> "alphabet", c, lower, fold]   R4: the environment's str.lower  *)
+(*      / str.casefold of a character the driver uses                      *)
+(*                                                                         *)
+(* The calls are independent (pure functions of the forest, the query as   *)
+(* written and the terms the objects were built as): a rejected event is   *)
+(* recorded and the next event of the same trace is examined.  `store` is  *)
+(* the only state: the terms of the objects built so far in this trace.    *)
 (***************************************************************************)
 EXTENDS Query, Json, IOUtils, TLCExt
 
 Batch == JsonDeserialize(IOEnv.TRACE_FILE)
 
-VARIABLES tid, l
-tvars == <<tid, l>>
+VARIABLES tid, l, store
+tvars == <<tid, l, store>>
 
 T    == Batch[tid]
 Ev   == T.events[l + 1]
@@ -43,10 +57,46 @@ TruthOK(e, cr) ==
          /\ e.test[i] \in Allowed(e.term, e.vals[i], FALSE)
          /\ e.pyf[i]  \in Allowed(e.term, e.vals[i], cr)         \* CompiledEqualsInterpreted when nothing raises
 
+(* Caselessness: the statement does not say which normalisation "case-insensitive" means for text on   *)
+(* which lower-casing and case folding differ.  An observation is accepted if ONE reading explains it   *)
+(* (for a truth event: the interpreted and the compiled table under the same reading, which is what      *)
+(* CompiledEqualsInterpreted asks for); on text without special-casing characters the readings coincide. *)
+FoldEv(e) == IF e.ev = "select" THEN [e EXCEPT !.qs = FoldQs(@)] ELSE [e EXCEPT !.term = FoldTerm(@)]
+SelAcc(e)   == SelOK(e, FALSE) \/ SelOK(FoldEv(e), FALSE)
+TruthAcc(e) == TruthOK(e, FALSE) \/ TruthOK(FoldEv(e), FALSE)
+
+(* events on objects of the store are judged as the corresponding event on the term the object was built as *)
+Known(i) == i \in DOMAIN store
+AsTruthT(e, term) == [ev |-> "truth", term |-> term, vals |-> e.vals, test |-> e.test, pyf |-> e.pyf, out |-> e.out]
+AsTruth(e) == AsTruthT(e, store[e.obj])
+NoT == <<>>
+ObjLevel(pos, term) == IF pos = "name" THEN [nk |-> "term", nlit |-> <<>>, nterm |-> term, am |-> "none", aq |-> <<>>]
+                       ELSE [nk |-> "any", nlit |-> <<>>, nterm |-> NoT, am |-> "any",
+                             aq |-> << [k |-> "term", lit |-> IV(0), term |-> term] >>]
+AsSelectT(e, term) == [ev |-> "select", via |-> e.via, recv |-> e.recv, qs |-> << ObjLevel(e.pos, term) >>, deep |-> e.deep,
+                       roots |-> e.roots, out |-> e.out, res |-> e.res]
+AsSelect(e) == AsSelectT(e, store[e.obj])
+AlphaOK(e) == e.lower = LowerC(e.c) /\ e.fold = FoldC(e.c)
+
+WellFormed ==
+    CASE Ev.ev = "combine" -> Known(Ev.a) /\ Known(Ev.b) /\ Ev.op \in {"not", "and", "or"}
+      [] Ev.ev \in {"otruth", "oselect"} -> Known(Ev.obj)
+      [] OTHER -> TRUE
+
 Accepts ==
-    CASE Ev.ev = "select" -> SelOK(Ev, FALSE)
-      [] Ev.ev = "truth"  -> TruthOK(Ev, FALSE)
+    WellFormed /\
+    CASE Ev.ev = "select" -> SelAcc(Ev)
+      [] Ev.ev = "truth"  -> TruthAcc(Ev)
+      [] Ev.ev \in {"new", "combine"} -> Ev.out = "ok"
+      [] Ev.ev = "otruth"  -> TruthAcc(AsTruth(Ev))
+      [] Ev.ev = "oselect" -> SelAcc(AsSelect(Ev))
+      [] Ev.ev = "alphabet" -> AlphaOK(Ev)
       [] OTHER -> FALSE
+
+StoreNext ==
+    CASE Ev.ev = "new" -> Append(store, Ev.term)
+      [] Ev.ev = "combine" /\ WellFormed -> Combine(store, Ev.op, Ev.a, Ev.b)
+      [] OTHER -> store
 
 (* ---- diagnosis: failing clause + abstract features of the failing case ---- *)
 RECURSIVE JoinStr(_)
@@ -85,21 +135,61 @@ DiagTruth(e) ==
          (IF \E i \in DOMAIN e.vals : e.pyf[i] \notin Allowed(e.term, e.vals[i], FALSE) /\ Eval(e.term, e.vals[i], FALSE).r
             THEN ":raising" ELSE "")
 
+(* text with special-casing characters takes part and no single reading of caselessness explains the event *)
+EvSpecial(e) ==
+    IF e.ev = "truth" THEN TermSpecial(e.term) \/ \E i \in DOMAIN e.vals : e.vals[i].t = "s" /\ SpecialCasing(e.vals[i].s)
+    ELSE \/ \E j \in DOMAIN e.qs : \/ TermSpecial(e.qs[j].nterm)
+                                    \/ \E m \in DOMAIN e.qs[j].aq : TermSpecial(e.qs[j].aq[m].term)
+         \/ \E i \in DOMAIN T.forest : \/ SpecialCasing(T.forest[i].n)
+                                       \/ \E m \in DOMAIN T.forest[i].a : T.forest[i].a[m].t = "s" /\ SpecialCasing(T.forest[i].a[m].s)
+CaselessTerm(term) == \E i \in DOMAIN term : term[i].op = "atom" /\ term[i].ci
+EvCaseless(e) ==
+    IF e.ev = "truth" THEN CaselessTerm(e.term)
+    ELSE \E j \in DOMAIN e.qs : CaselessTerm(e.qs[j].nterm) \/ \E m \in DOMAIN e.qs[j].aq : CaselessTerm(e.qs[j].aq[m].term)
+\* one evaluator follows one reading, the other one the other (or none): named as such
+Readings(e) ==
+    IF e.ev = "truth" /\ e.out = "ok" /\ EvCaseless(e) /\ EvSpecial(e)
+       /\ ((\A i \in DOMAIN e.vals : e.test[i] \in Allowed(e.term, e.vals[i], FALSE))
+           \/ (\A k \in DOMAIN e.vals : e.test[k] \in Allowed(FoldTerm(e.term), e.vals[k], FALSE)))
+    THEN "CompiledEqualsInterpreted:caseless:special-casing-text"
+    ELSE IF e.ev = "select" /\ e.out = "ok" /\ EvCaseless(e) /\ EvSpecial(e) /\ ~SetOK(e, "interp", FALSE) /\ ~SetOK(e, "strict", TRUE)
+            /\ Increasing(e.res)
+    THEN "Exact:caseless:special-casing-text:" \o QueryKinds(e)
+    ELSE ""
+DiagBase(e) ==
+    LET r == Readings(e) IN
+    IF r # "" THEN r ELSE IF e.ev = "select" THEN DiagSel(e) ELSE DiagTruth(e)
+
+(* an object that has served as an operand of a combination built earlier in this trace: does it now *)
+(* evaluate as one of the objects built after it?                                                    *)
+UsedAs(e) ==
+    LET used  == \E m \in 1..l : T.events[m].ev = "combine" /\ (T.events[m].a = e.obj \/ T.events[m].b = e.obj)
+        later == {d \in DOMAIN store : d > e.obj}
+        EvalAs(d) == IF e.ev = "otruth" THEN TruthAcc(AsTruthT(e, store[d])) ELSE SelAcc(AsSelectT(e, store[d]))
+    IN IF ~used THEN ""
+       ELSE IF \E d \in later : EvalAs(d) THEN "OperandUnchanged:evaluates-as-a-later-combination:"
+       ELSE "OperandUnchanged:after-serving-as-operand:"
+DiagObj(e) == UsedAs(e) \o (IF e.ev = "otruth" THEN "truth:" \o DiagBase(AsTruth(e)) ELSE e.pos \o ":" \o DiagBase(AsSelect(e)))
+
 Diagnose ==
-    CASE Ev.ev = "select" -> DiagSel(Ev)
-      [] Ev.ev = "truth"  -> DiagTruth(Ev)
+    IF ~WellFormed THEN "machinery:unknown-object" ELSE
+    CASE Ev.ev = "select" -> DiagBase(Ev)
+      [] Ev.ev = "truth"  -> DiagBase(Ev)
+      [] Ev.ev \in {"new", "combine"} -> "Object.crash:" \o Ev.ev
+      [] Ev.ev \in {"otruth", "oselect"} -> DiagObj(Ev)
+      [] Ev.ev = "alphabet" -> "machinery:alphabet:model-and-environment-disagree"
       [] OTHER -> "machinery:unknown-event"
 
-TraceInit == tid = 1 /\ l = 0
+TraceInit == tid = 1 /\ l = 0 /\ store = <<>>
 
 TraceNext ==
     /\ tid <= Len(Batch)
     /\ IF ~More
          THEN /\ TLCSet(2, TLCGet(2) + l)
-              /\ tid' = tid + 1 /\ l' = 0
+              /\ tid' = tid + 1 /\ l' = 0 /\ store' = <<>>
          ELSE /\ IF Accepts THEN TRUE
                  ELSE TLCSet(1, TLCGet(1) \cup {[id |-> T.id, line |-> l + 1, clause |-> Diagnose]})
-              /\ l' = l + 1 /\ tid' = tid
+              /\ l' = l + 1 /\ tid' = tid /\ store' = StoreNext
 TraceSpec == TraceInit /\ [][TraceNext]_tvars
 
 ASSUME TLCSet(1, {}) /\ TLCSet(2, 0)
